@@ -3,6 +3,7 @@ package main
 // Helpers for engine-B obligations: anchors by role, comparison with specs.
 
 import (
+	"time"
 	"fmt"
 	"go/types"
 	"math/big"
@@ -1926,6 +1927,7 @@ func (x *Extractor) caseFeasible(as0 []Assumption) bool {
 func (x *Extractor) EquivByCases(a, b *RF, depth int) bool {
 	if depth == 0 {
 		x.caseBudget = 4000
+		x.caseDeadline = time.Now().Add(10 * time.Second)
 	}
 	if a.Equal(b) {
 		return true
@@ -1933,7 +1935,8 @@ func (x *Extractor) EquivByCases(a, b *RF, depth int) bool {
 	// bounded: a comparison that cannot be decided within the budget is
 	// reported as a mismatch (fail-closed), never left running
 	x.caseBudget--
-	if depth > 10 || x.caseBudget < 0 {
+	if depth > 10 || x.caseBudget < 0 || (x.caseBudget%16 == 0 && time.Now().After(x.caseDeadline)) {
+		x.caseBudget = -1
 		return false
 	}
 	// split on an innermost gating condition first (one that contains no
